@@ -4,6 +4,7 @@ import itertools
 from mc import core, hist, lib
 
 ENGINE = "E1-sweep"
+TICK_EVERY = 5      # every 5th case of every unit is repeated with numpy integer ticks (int64 / int32)
 RULE = ("all well-formed note sets over the tick lattice (pairs over the full lattice, triples/quads around one "
         "grid point, notes + 1-2 signature events, colliding pair + far survivor) x 7 step lists; "
         "distinct = distinct (steps, notes, events); non-trivial = some event moves or some note is dropped")
